@@ -281,10 +281,17 @@ def _heps(dt):
 
 def case_tol(case, A=None, P=None):
     """relative tolerance of comparisons between calls / with the model: TOL, and 4 eps of the coarsest
-    dtype in the chain scores -> weights -> result when that is float16 / bfloat16"""
+    dtype in the chain scores -> weights -> result when that is float16 / bfloat16.  LONG sequences: the
+    softmax normaliser and the weighted sum are sums of T terms; the textbook forward error bound of a sum of T
+    terms is T * u, u = eps / 2, relative to the sum of the magnitudes -- twice (normaliser, weighted sum) that is
+    (T + 2) * eps of the single / double precision dtype the sums are formed in.  It exceeds TOL = 1e-5 only for
+    T > 82 in float32 (1.2e-4 at T = 1024), i.e. for none of the lengths generated before the size stream."""
+    import torch
     if A is None:
         A, P, _ = expected_dtypes(case)
-    return max(TOL, 4 * max(_heps(A), _heps(P)))
+    single = any(d in (torch.float32, torch.float16, torch.bfloat16) for d in (A, P))
+    long_ = (case.get("T", 1) + 2) * float(torch.finfo(torch.float32 if single else torch.float64).eps)
+    return max(TOL, 4 * max(_heps(A), _heps(P)), long_)
 
 
 def _to_dtype(ints, name):
@@ -793,7 +800,10 @@ class C20(PropertyCheck):
         "sent to the Lean model",
         "C20.split: the shares of the blocks are sums of the softmax weights captured from the implementation; "
         "the mixture is formed in double precision and compared within max(case tolerance, (T + 2) eps(P)) max|v|",
-        "long sequences keep the 1e-5 tolerance (float32 sums of up to 1025 terms: observed gap below 0.15 of it)",
+        "long sequences: comparisons of outputs (with the model, between calls) use max(1e-5, (T + 2) eps32) in "
+        "single precision -- the forward error bound of the two sums over T terms; larger than 1e-5 only for "
+        "T > 82 (1.2e-4 at T = 1024; observed gaps of 1000 float32 cases with T >= 512 reached 0.73e-5); weights and "
+        "scores keep 1e-5 / exact",
     ]
     quick_budget_s = 75
     thorough_budget_s = 700
